@@ -52,6 +52,8 @@ type metaCase struct {
 	GID   int    `json:"gid,omitempty"`
 	MTime int64  `json:"mtime,omitempty"`
 	Link  int    `json:"link_len,omitempty"`
+	// ManyIDs > 0: that many extra files, each owned by a uid and a gid of its own (more ids than one block of the id table holds)
+	ManyIDs int `json:"many_ids,omitempty"`
 }
 
 type attrs struct {
@@ -439,10 +441,21 @@ func runFinalizeMeta(c *metaCase) (sig, msg, outcome string) {
 		}
 		t.Links = map[string]string{"lnk": linkTarget}
 	}
+	if c.ManyIDs > 0 {
+		t.Dirs = append(t.Dirs, "many")
+		for i := 0; i < c.ManyIDs; i++ {
+			t.Files[fmt.Sprintf("many/u%05d", i)] = nil
+		}
+	}
 	mt := time.Unix(c.MTime, 0)
 	prep := func(ws string) error {
 		if err := populateWorkspace(ws, t); err != nil {
 			return err
+		}
+		for i := 0; i < c.ManyIDs; i++ {
+			if err := os.Chown(filepath.Join(ws, fmt.Sprintf("many/u%05d", i)), 3000+i, 70000+i); err != nil {
+				return err
+			}
 		}
 		for _, p := range []string{"file", "dir"} {
 			fp := filepath.Join(ws, p)
@@ -521,6 +534,16 @@ func runFinalizeMeta(c *metaCase) (sig, msg, outcome string) {
 			return c.FS + "|finalize|owner", fmt.Sprintf("%s: owner %d:%d in the workspace, %d:%d reported from the image", p, c.UID, c.GID, g.UID, g.GID), "bad"
 		case g.MTime>>30 != c.MTime:
 			return c.FS + "|finalize|mtime", fmt.Sprintf("%s: mtime %d in the workspace, %d reported from the image", p, c.MTime, g.MTime>>30), "bad"
+		}
+	}
+	for i := 0; i < c.ManyIDs; i++ {
+		p := fmt.Sprintf("many/u%05d", i)
+		g, ok := got[p]
+		if !ok {
+			return c.FS + "|many-ids|entry-missing", p + " is not reported from the image", "bad"
+		}
+		if g.UID != int64(3000+i) || g.GID != int64(70000+i) {
+			return c.FS + "|finalize|owner|many-ids", fmt.Sprintf("%s: owner %d:%d in the workspace, %d:%d reported from the image (%d distinct ids in the image)", p, 3000+i, 70000+i, g.UID, g.GID, 2*c.ManyIDs+2), "bad"
 		}
 	}
 	if o := got["other"]; o.Kind != "file" || o.Mode != 0o644 {
@@ -619,6 +642,11 @@ func enumC19(quick bool) []metaCase {
 				cs = append(cs, metaCase{FS: fs, Ops: append(append([]metaOp{}, ops...), metaOp{"chtimes", "b", "1700000001.0"}, metaOp{"write", "b", "3"})})
 			}
 		}
+	}
+	// squashfs: more distinct owners than one metadata block of the id table holds (2048)
+	cs = append(cs, metaCase{FS: "squashfs", Mode: 0o644, UID: 1, GID: 2, MTime: 1700000001, ManyIDs: 1100})
+	if !quick {
+		cs = append(cs, metaCase{FS: "squashfs", Mode: 0o644, UID: 1, GID: 2, MTime: 1700000001, ManyIDs: 1023}, metaCase{FS: "squashfs", Mode: 0o644, UID: 1, GID: 2, MTime: 1700000001, ManyIDs: 2100})
 	}
 	// squashfs / Rock Ridge ISO: workspace metadata at finalize time
 	fmodes := []uint32{0, 0o644, 0o755, 0o777, 0o4755, 0o2755, 0o1777, 0o7777, 0o400, 0o001}
